@@ -81,10 +81,41 @@ Theorem C04_inferred_ok : forall s f a b x y c,
 Proof. exact set_cov_inferred_accepts. Qed.
 Print Assumptions C04_inferred_ok.
 
+(** rejected: a request implying |correlation| > 1, or involving a value with zero uncertainty or a
+    calculated quantity / constant / unknown id, raises and leaves the whole state as it was *)
+Theorem C04_reject_corr : forall s f a b r,
+  (measured_id s a = false \/ measured_id s b = false \/ std_of s a == 0 \/ std_of s b == 0 \/ r < -1 \/ 1 < r) ->
+  exists e, step s (SetCorr f (Ref a) (Ref b) (ANum r)) = (s, Raised e).
+Proof. exact reject_corr_lemma. Qed.
+Print Assumptions C04_reject_corr.
+
+Theorem C04_reject_cov : forall s f a b c,
+  (measured_id s a = false \/ measured_id s b = false \/ std_of s a == 0 \/ std_of s b == 0 \/
+   c / (std_of s a * std_of s b) < -1 \/ 1 < c / (std_of s a * std_of s b)) ->
+  exists e, step s (SetCov f (Ref a) (Ref b) (ANum c)) = (s, Raised e).
+Proof. exact reject_cov_lemma. Qed.
+Print Assumptions C04_reject_cov.
+
+(** so is a request whose operand is not a quantity at all (a number, a string) *)
+Theorem C04_reject_notq : forall s o cv oa ob r,
+  set_parts o = Some (cv, oa, ob, r) -> (oa = NotQ \/ ob = NotQ) -> exists e, step s o = (s, Raised e).
+Proof. exact reject_notq_lemma. Qed.
+Print Assumptions C04_reject_notq.
+
 (** every call that raises leaves the whole state (table and every record) untouched *)
 Theorem C04_reject_untouched : forall s o e, snd (step s o) = Raised e -> fst (step s o) = s.
 Proof. exact step_reject_untouched. Qed.
 Print Assumptions C04_reject_untouched.
+
+(** a record is the covariance at the time of recording: a later write of .error or .value (which changes a
+    standard deviation) leaves what the pair reads unchanged as long as both standard deviations stay non-zero *)
+Theorem C04_record_persists : forall s o cv c d,
+  is_attr_write o = true -> c <> d ->
+  ~ std_of s c == 0 -> ~ std_of s d == 0 ->
+  ~ std_of (fst (step s o)) c == 0 -> ~ std_of (fst (step s o)) d == 0 ->
+  get cv (fst (step s o)) c d = get cv s c d.
+Proof. exact record_persists_lemma. Qed.
+Print Assumptions C04_record_persists.
 
 (** bounded: after any history on any table every pair reads a correlation in [-1, 1] *)
 Theorem C04_bounded : forall t ops a b, -1 <= get_corr (run ops (init t)) a b <= 1.
